@@ -1,6 +1,7 @@
 import Hoot.Model.Flow
 import Hoot.Proofs.PropsWF
 import Hoot.Props.C02
+import Hoot.Proofs.HeadersMap
 
 /-! # C16 — headers the caller adds before sending always reach the wire
 
@@ -46,6 +47,36 @@ theorem C16_analysis_appends (c : CallSt) :
       (repeat' split) <;> simp_all <;> (try exact ⟨[], by simp⟩)
       all_goals (first | exact ⟨_, rfl⟩ | skip)
 
+/-- **C16 (as seen through `headers_map()`).** Every name the caller added has an entry in the map the
+    accessor returns; and when the name is one the redirect suppresses among the inherited headers, that entry
+    is one of the request's own (the caller's, or the derived Host / framing header) — never the inherited one,
+    and never missing. -/
+theorem C16_headers_map (c c1 : CallSt) (m : List Hdr) (hm : c.headersMap = (c1, .ok m))
+    (a : Hdr) (ha : a ∈ c.req.added) :
+    ∃ h ∈ m, h.name = a.name ∧ (c.req.unset.contains a.name = true → h ∈ c1.req.added) := by
+  obtain ⟨hc1, rfl⟩ := headersMap_ok hm
+  obtain ⟨extra, hadd, _, hu, _⟩ := analyzeRequest_extra c
+  have hin : ∃ h ∈ c.analyzeRequest.1.req.headers, h.name = a.name := by
+    refine ⟨a, ?_, rfl⟩
+    unfold AReq.headers; rw [hadd]; simp [ha]
+  obtain ⟨h, hmem, hname⟩ := headersMapOf_complete hin
+  refine ⟨h, hmem, hname, ?_⟩
+  intro hs
+  have hh := headersMapOf_sub hmem
+  unfold AReq.headers at hh
+  rw [List.mem_append] at hh
+  rcases hh with hh | hh
+  · rw [hc1]; exact hh
+  · rw [List.mem_filter, hu, hname] at hh
+    rw [hs] at hh; simp at hh
+
+/-- the map has one entry per name, and it is the last effective header of that name (what
+    `HeaderMap::insert` leaves) -/
+theorem C16_headers_map_last (c c1 : CallSt) (m : List Hdr) (hm : c.headersMap = (c1, .ok m)) (a b : Hdr)
+    (ha : a ∈ m) (hb : b ∈ m) : (a.name = b.name → a = b) ∧ lastNamed c1.req.headers a.name = some a := by
+  obtain ⟨hc1, rfl⟩ := headersMap_ok hm
+  exact ⟨headersMapOf_unique ha hb, by rw [hc1]; exact mem_headersMapOf.mp ha⟩
+
 /-- **C16 (on the wire).** The rendered head is: request line, the caller's lines in order, then the
     rest. -/
 theorem C16_render (r : AReq) :
@@ -53,6 +84,10 @@ theorem C16_render (r : AReq) :
       ((r.orig.filter (fun h => !r.unset.contains h.name)).map (fun h => strBytes (h.name ++ ": ") ++ h.value ++ crlf)).flatten) ++ crlf := by
   unfold renderHead AReq.headers
   simp [List.map_append, List.flatten_append]
+
+-- a test, not a proof (string order does not reduce in the kernel)
+#guard headersMapOf [{ name := "x", value := [49] }, { name := "a", value := [50] }, { name := "x", value := [51] }]
+    = [{ name := "a", value := [50] }, { name := "x", value := [51] }]
 
 example : ({ method := .get, version := .h11, uri := { scheme := "http", host := "a", port := none, path := "/", query := none },
              orig := [{ name := "cookie", value := [49] }], added := [{ name := "cookie", value := [50] }], unset := ["cookie"] } : AReq).headers
